@@ -76,7 +76,7 @@ def fixture_files():
 
 
 def cases(tier):
-    return 4800 if tier == "quick" else 160000
+    return 4800 if tier == "quick" else 320000
 
 
 def strategy(hazards):
